@@ -1196,7 +1196,17 @@ def x_islice(it, args, kw):
     return VGen(list(items)[slice(*rest)])
 
 
+def x_combinations(it, args, kw):
+    import itertools
+
+    r = args[1] if len(args) > 1 else kw.get("r")
+    if not isinstance(r, int):
+        raise OutOfSubset("itertools.combinations with a symbolic size")
+    return [tuple(c) for c in itertools.combinations(it.iterate_all(args[0]), r)]
+
+
 EXTERN = {
+    "itertools.combinations": x_combinations,
     "contextlib.suppress": x_suppress,
     "itertools.cycle": x_cycle,
     "itertools.islice": x_islice,
